@@ -52,6 +52,9 @@ func init() {
 			n := pick(tier, 24000, 800000)
 			js := chunk("main", "prod", n, pick(tier, 2000, 25000), Job{Timeout: 30 * time.Minute})
 			js = append(js, chunk("main", "test", n/2, pick(tier, 2000, 12500), Job{Timeout: 30 * time.Minute})...)
+			// processes in which the application's no-color switch is on, and processes started with NO_COLOR set
+			js = append(js, chunk("main", "prod", pick(tier, 2000, 50000), pick(tier, 2000, 25000), Job{Args: []string{"-x", "nocolormode=1"}, Timeout: 30 * time.Minute})...)
+			js = append(js, chunk("main", "prod", pick(tier, 2000, 50000), pick(tier, 2000, 25000), Job{Env: []string{"NO_COLOR=1"}, Timeout: 30 * time.Minute})...)
 			return js
 		},
 	})
